@@ -16,14 +16,14 @@ ASSUMPTIONS = ["every record carries a unique (key, value) derived from its offs
                "ListOffsets / OffsetFetch (+1); permitted discontinuities are a reset-policy firing (OffsetOutOfRange "
                "answer followed by a ListOffsets lookup) and an application restart",
                "snappy not installed (gzip and uncompressed batches only)"]
-REACH_MIN = {"messages_delivered": {"quick": 4000, "thorough": 120000},
-             "gzip_magic1_batches_served": {"quick": 60, "thorough": 1800},
-             "partial_trailing_message": {"quick": 80, "thorough": 2400},
-             "buffer_growth": {"quick": 20, "thorough": 600},
-             "reset_policy_fired": {"quick": 3, "thorough": 100},
-             "restarts": {"quick": 20, "thorough": 600},
-             "leader_moves": {"quick": 20, "thorough": 600},
-             "fetch_faults": {"quick": 60, "thorough": 1800}}
+REACH_MIN = {"messages_delivered": {"quick": 4000, "thorough": 67200},
+             "gzip_magic1_batches_served": {"quick": 60, "thorough": 1008},
+             "partial_trailing_message": {"quick": 80, "thorough": 1344},
+             "buffer_growth": {"quick": 20, "thorough": 336},
+             "reset_policy_fired": {"quick": 3, "thorough": 50},
+             "restarts": {"quick": 20, "thorough": 336},
+             "leader_moves": {"quick": 20, "thorough": 336},
+             "fetch_faults": {"quick": 60, "thorough": 1008}}
 
 
 def cases(tier, seed):
